@@ -19,7 +19,7 @@ BOOLS = ['reindent', 'reindent_aligned', 'strip_whitespace', 'use_space_around_o
          'indent_columns', 'comma_first', 'compact']
 OPTSETS = [dict(), dict(strip_whitespace=True), dict(use_space_around_operators=True), dict(reindent=True), dict(reindent_aligned=True),
            dict(reindent=True, comma_first=True), dict(reindent=True, indent_columns=True), dict(reindent=True, wrap_after=5),
-           dict(reindent=True, compact=True, indent_width=4), dict(reindent=True, indent_tabs=True, indent_after_first=True),
+           dict(reindent=True, compact=True, indent_width=4), dict(reindent=True, indent_tabs=True, indent_after_first=True), dict(indent_columns=True),
            dict(reindent=True, use_space_around_operators=True, wrap_after=1, indent_width=1), dict(strip_whitespace=True, use_space_around_operators=True),
            dict(reindent_aligned=True, use_space_around_operators=True), dict(reindent=True, indent_width=3, wrap_after=20, comma_first=True, indent_columns=True)]
 NOPT = len(OPTSETS)
@@ -105,7 +105,8 @@ def normal_why(text, o):
             prev = (tt, v)
         again = sqlparse.format(out, **o)
         if again != out:
-            return f'strip_whitespace:not-a-fixed-point: {text!r} -> {out!r} -> {again!r}'
+            kind = 'not-a-fixed-point-whitespace-before-comma' if re.search(r'\s,', text) else 'not-a-fixed-point'
+            return f'strip_whitespace:{kind}: {text!r} -> {out!r} -> {again!r}'
     if o.get('use_space_around_operators') and len(o) == 1:
         for i, (tt, v) in enumerate(toks):
             if tt in T.Operator or tt is T.Wildcard and False:
@@ -174,9 +175,11 @@ def normal(ks: List[int], oi: int) -> int:
 
 
 # ---- scripts of the verification grammar (structured choices) ------------------------------------
-ITEMS = ['a', '- 1, b AS c', 'f(a), t.b', 'a+b, count(*)', 'case when a then 1 else 2 end, d', '(select 1), "q c"', "'s t', 1.5", 'a , b']
+ITEMS = ['a', 'a  , b , c\n     , d', 'f(a), t.b', 'a+b, - 1, count(*)', 'case when a then 1 else 2 end, d', '(select 1), "q c"', "'s t', 1.5", 'a , b',
+         'coalesce(a, case when x=1 and y=2 then 1 else 0 end)', 'f(-a, -b), g(a, 1+(select max(x) from t where a=1))']
 TABLES = ['t', 't join u on a = b', 't left outer join u on t.a = u.b', 't, u', '(select a from s where z = 3) x', 't cross join u']
-WHERES = ['', 'x = 1', 'x = 1 and y > 2', 'a between 1 and 2 and b < 3', 'x in (1, 2) or y is null', "e like 'z' and (f = 1 or g = 2)", 'exists (select 1 from u where k = 1)']
+WHERES = ['', 'x = 1', 'x = 1 and y > 2', 'a between 1 and 2 and b < 3', 'x in (1, 2) or y is null', "e like 'z' and (f = 1 or g = 2)", 'exists (select 1 from u where k = 1)',
+          'a=true and b=false', 'a>-b or c<=null']
 TAILS = ['', 'group by a', 'group by a having count(*) > 1', 'order by a desc', 'order by a, b limit 1', 'group by a order by 1', 'limit 1']
 SETOPS = ['', ' union select 2 from v', ' union all select c from w where d = 4', ' except select 3']
 OTHER = ['insert into t (a, b) values (1, 2)', 'update t set a = 1, b = 2 where c = 3', 'delete from t where a = 1', 'create table t (a int, b varchar(10))',
@@ -206,13 +209,13 @@ def gen(i, t, w, tl, so, ws, cm):
 
 def g_tokens(i: int, t: int, w: int, tl: int, so: int, ws: int, cm: int, oi: int) -> int:
     """
-    pre: 0 <= i < 8 and 0 <= t < 6 and 0 <= w < 7 and 0 <= tl < 7 and 0 <= so < 4 and 0 <= ws < 4 and 0 <= cm < 3
+    pre: 0 <= i < 10 and 0 <= t < 6 and 0 <= w < 9 and 0 <= tl < 7 and 0 <= so < 4 and 0 <= ws < 4 and 0 <= cm < 3
     pre: 0 <= oi < NOPT
     pre: PART < 0 or oi == PART
-    pre: GSUB == 0 or ((i + 8 * (t + 6 * (w + 7 * (tl + 7 * (so + 4 * (ws + 4 * cm)))))) % GSUB == GSEED % GSUB)
+    pre: GSUB == 0 or ((i + 10 * (t + 6 * (w + 9 * (tl + 7 * (so + 4 * (ws + 4 * cm)))))) % GSUB == GSEED % GSUB)
     post: _ != 2
     """
-    text = gen(conc(i, 7), conc(t, 5), conc(w, 6), conc(tl, 6), conc(so, 3), conc(ws, 3), conc(cm, 2))
+    text = gen(conc(i, 9), conc(t, 5), conc(w, 8), conc(tl, 6), conc(so, 3), conc(ws, 3), conc(cm, 2))
     wy = tokens_why(text, OPTSETS[conc(oi, NOPT - 1)])
     if wy and wy.split(':')[0] in KNOWN:
         return 1
@@ -221,13 +224,13 @@ def g_tokens(i: int, t: int, w: int, tl: int, so: int, ws: int, cm: int, oi: int
 
 def g_normal(i: int, t: int, w: int, tl: int, so: int, ws: int, cm: int, oi: int) -> int:
     """
-    pre: 0 <= i < 8 and 0 <= t < 6 and 0 <= w < 7 and 0 <= tl < 7 and 0 <= so < 4 and 0 <= ws < 4 and 0 <= cm < 3
+    pre: 0 <= i < 10 and 0 <= t < 6 and 0 <= w < 9 and 0 <= tl < 7 and 0 <= so < 4 and 0 <= ws < 4 and 0 <= cm < 3
     pre: 0 <= oi < NOPT
     pre: PART < 0 or oi == PART
-    pre: GSUB == 0 or ((i + 8 * (t + 6 * (w + 7 * (tl + 7 * (so + 4 * (ws + 4 * cm)))))) % GSUB == GSEED % GSUB)
+    pre: GSUB == 0 or ((i + 10 * (t + 6 * (w + 9 * (tl + 7 * (so + 4 * (ws + 4 * cm)))))) % GSUB == GSEED % GSUB)
     post: _ != 2
     """
-    text = gen(conc(i, 7), conc(t, 5), conc(w, 6), conc(tl, 6), conc(so, 3), conc(ws, 3), conc(cm, 2))
+    text = gen(conc(i, 9), conc(t, 5), conc(w, 8), conc(tl, 6), conc(so, 3), conc(ws, 3), conc(cm, 2))
     wy = normal_why(text, OPTSETS[conc(oi, NOPT - 1)])
     if wy and ':'.join(wy.split(':')[:2]) in KNOWN:
         return 1
